@@ -236,7 +236,7 @@ def _run_job(job, prop, hdir, wd, res):
         if not ok:
             return fail("legacy contract instrumentation failed")
     # 4. cbmc
-    flags = ["--json-ui", "--verbosity 8", "--unwinding-assertions", "--no-malloc-may-fail"]
+    flags = ["--json-ui", "--verbosity 8", "--unwinding-assertions", "--no-malloc-may-fail", "--max-field-sensitivity-array-size 256"]
     for c in job.no_checks:
         flags.append(f"--no-{c}-check")
     if job.unwind is not None:
@@ -453,11 +453,12 @@ def run_property(prop, tier="quick", only=None, keep=False, update_lock=False, v
                     # known finding no longer fails: fine (fixed); nothing to report
                     pass
                 continue
+            # one obligation = one distinct key of a job (all CBMC checks of one class in one function are one key)
             if j.bounded:
-                n_bounded += a["n"]
+                n_bounded += 1
             else:
-                n_obl += a["n"]
-            by_class[cls] = by_class.get(cls, 0) + a["n"]
+                n_obl += 1
+            by_class[cls] = by_class.get(cls, 0) + 1
             if a["fail"] or a["other"]:
                 if a["other"] and not a["fail"]:
                     inconclusive.append((j.name, f"property status not SUCCESS/FAILURE: {key}", ""))
@@ -469,9 +470,9 @@ def run_property(prop, tier="quick", only=None, keep=False, update_lock=False, v
             else:
                 passed_keys.append(key)
                 if j.bounded:
-                    n_bounded_ok += a["n"]
+                    n_bounded_ok += 1
                 else:
-                    n_dis += a["n"]
+                    n_dis += 1
         if not have_obl:
             inconclusive.append((j.name, "no named obligation or postcondition among the checked properties (vacuous harness)", r.log_tail))
         # lock-listed obligations that disappeared
